@@ -535,3 +535,109 @@ def confirm_equiv(prop, v):
             if status == 'not_reproduced': status = 'unreachable'
         elif differs: status = 'reproduced'
     return status, detail
+
+
+# ---------------------------------------------------------------------------------------------
+def run_move_then_remove_job(prog, job):
+    """C08 / C04 over two calls: a checked insert moves node x away from its parent `old`, then old.remove_subtree(): exactly the
+    nodes that the DOCUMENTED effect of the move leaves under `old` disappear; every other node keeps its payload and is not
+    dropped (a move that leaves a stale child link behind makes the second call free a live node that was moved away)."""
+    import specs
+    t0 = time.time()
+    op1, N = job['op_mut'], job['N']
+    prefixes = tuple(p + '.' for p in job['props'])
+    ctx = harness.Ctx(prog, op1, N, job.get('fix_t'), job.get('fix_x'))
+    eng = ctx.eng; A = ctx.A; pre = ctx.pre
+    res = new_result(job)
+    x, t = ctx.x, ctx.t
+    has_old = sel(pre.some['parent'], x); old = sel(pre.idx['parent'], x)
+    eng.solver.add(ctx.t_live, ctx.x_live, has_old)
+    if eng.solver.check() != z3.sat:
+        res['vacuous'] = True; return res
+    outs = ctx.explore()
+    npar, nprv = specs.insert_abstraction(harness.base_op(op1), pre, t, x)
+    # membership in subtree(old) according to the expected abstraction after the move
+    def under_old(i):
+        r = (old == i + 1)
+        sm, cur = npar[i]
+        for _ in range(N):
+            r = z3.Or(r, z3.And(sm, cur == old))
+            sm2 = sel([p[0] for p in npar], cur); c2 = sel([p[1] for p in npar], cur)
+            sm, cur = z3.And(sm, sm2), c2
+        return r
+    gone = [z3.And(A.live(i), under_old(i)) for i in range(N)]
+    rsub = find_fn(prog, 'NodeId', 'remove_subtree')
+    aref = Ref(ctx.acell, ())
+    id_old = mk_id(old, sel(A.stamp, old))
+    def mv(m, failed):
+        return {'kind': 'custom', 'module': 'multistep', 'confirm': 'confirm_move_then_remove', 'checks': failed, 'op': op1, 'N': N, 'cfg': 'dev', 'role': 'move_then_remove',
+                'pre': A.model_dict(m), 'args': dict(ctx.args_dict(m), old=m.eval(old, model_completion=True).as_long())}
+    for o in outs:
+        res['paths'] += 1; res['steps'] += o.state.steps
+        kind, rv = harness.result_class(op1, o)
+        if kind != 'result': continue
+        is_ok = zb(S(rv.d.v, 'isize')) == 0
+        if not eng.feasible(o.state, is_ok): continue
+        s1 = o.state.copy(); s1.pc.append(is_ok); s1.model = None; s1.drops = []
+        for o2 in call_all(eng, s1, rsub, [id_old, aref]):
+            res['paths'] += 1; res['steps'] += o2.state.steps
+            if o2.kind != 'return':
+                ob = [('%s.second_call_completes' % p_, F_) for p_ in job['props']]
+            else:
+                V2 = View(o2.state.store[ctx.acell])
+                ob = []
+                livedata = [z3.If(A.live(i), z3.ZeroExt(8, A.data[i]), z3.BitVecVal(256 + i, 16)) for i in range(N)]
+                distinct = z3.Distinct(*livedata) if N > 1 else T_
+                for i in range(N):
+                    keep = z3.And(A.live(i), z3.Not(gone[i]))
+                    ob.append(('C08.moved_away_node_survives_removal_of_old_parent[%d]' % (i + 1), z3.Implies(keep, z3.And(V2.live(i), V2.is_data[i], V2.data[i] == A.data[i]))))
+                    ob.append(('C04.remove_subtree_after_move_removes_exactly_the_subtree[%d]' % (i + 1), z3.Implies(A.live(i), V2.live(i) == z3.Not(gone[i]))))
+                    cnt = sum([z3.If(z3.And(zbool(c), e == A.data[i]), 1, 0) for (c, e) in o2.state.drops], z3.IntVal(0))
+                    ob.append(('C08.dropped_iff_removed_after_move[%d]' % (i + 1), z3.Implies(z3.And(distinct, A.live(i)), cnt == z3.If(gone[i], 1, 0))))
+                res['nontrivial'] += 1
+            check_obligations(eng, list(o2.state.pc), ob, prefixes, res, mv)
+    if eng.solver.check() == z3.sat:
+        m = eng.solver.model()
+        res['samples'].append({'harness': '%s then remove_subtree of the former parent' % op1, 'N': N, 'args': ctx.args_dict(m), 'pre': A.model_dict(m)})
+    res['feas_queries'] = eng.nq; res['solver_time'] += eng.tq
+    res['wall'] = time.time() - t0
+    return res
+
+
+def confirm_move_then_remove(prop, v):
+    import replay
+    pre = v['pre']; a = v['args']; N = len(pre['slots'])
+    # expected survivors: natively computed from the documented effect = run on the reference semantics is not available natively;
+    # instead check the observable symptom directly: a node that is not a descendant of `old` after the move (by its own parent
+    # chain as reported after the first call) must still be live and keep its payload after old.remove_subtree()
+    detail = {}; status = 'not_reproduced'
+    for profile in ('dev', 'release'):
+        lines = replay.construct_script(pre)
+        n0 = len(lines)
+        lines += [replay.op_line(v['op'], a, pre), 'dump', 'remove_subtree s%d' % a['old'], 'dump', 'drops']
+        res = replay.run_script(lines, profile)
+        def dump_at(k):
+            r = res.get(k)
+            try: return replay.parse_dump(r[1]) if r and r[0] == 'OK' else None
+            except ValueError: return None
+        ok = bool(dump_at(n0 - 1)) and replay.same_state(dump_at(n0 - 1), pre)
+        mid, fin = dump_at(n0 + 1), dump_at(n0 + 3)
+        bad = []
+        if res.get(n0 + 2, ('', ''))[0] != 'OK': bad.append('remove_subtree after the move: %s' % (res.get(n0 + 2),))
+        if mid and fin:
+            def under(i):
+                c = i; k = 0
+                while c is not None and k <= N:
+                    if c == a['old']: return True
+                    p = mid['slots'][c - 1]['parent']; c = p[0] if p else None; k += 1
+                return False
+            for i in range(1, N + 1):
+                if mid['slots'][i - 1]['stamp'] >= 0 and not under(i):
+                    if fin['slots'][i - 1]['stamp'] < 0 or fin['slots'][i - 1].get('data') != mid['slots'][i - 1].get('data'):
+                        bad.append('node %d is not under node %d after the move (its parent chain says so) but was freed / lost its payload by remove_subtree(%d)' % (i, a['old'], a['old']))
+        detail[profile] = {'pre_ok': ok, 'bad': bad[:6]}
+        detail.setdefault('script', lines)
+        if not ok:
+            if status == 'not_reproduced': status = 'unreachable'
+        elif bad: status = 'reproduced'
+    return status, detail
